@@ -1048,3 +1048,96 @@ def future_shapes():
 
 def futures_family(tier, seed):
     return [normalize(p) for p in future_shapes()]
+
+
+def panic_base():
+    """programs covering the situations in which a panic can strike (DESIGN.md §6 C06)"""
+    out = []
+    A = out.append
+    a2 = {"A": {"h0": ["a1", "a2"], "cell": ""}}
+    D = lambda h: L("adrop", h)
+    A(P("pb-atomics", SJ(2) + JJ(2), [st("x", 1, "rel"), ld("y", "acq")], [st("y", 1, "rel"), ld("x", "acq")]))
+    A(P("pb-mutex-held", SJ(2) + JJ(2), CS("m", ld("x"), st("x", 1)), CS("m", ld("x"), st("x", 2))))
+    A(P("pb-nested-locks", SJ(2) + JJ(2), CS("m", *CS("n", ld("x"))), CS("m", ld("x"))))
+    A(P("pb-rw-guards", SJ(2) + JJ(2), [L("read", "l"), ld("x"), L("unlockr", "l")], [L("write", "l"), st("x", 1), L("unlockw", "l")]))
+    A(P("pb-blocked-in-recv", [spawn(2), spawn(3), L("recv", "ch"), join(2), join(3), L("droprx", "ch")], [ld("x"), L("send", "ch", v=1)], [ld("x")]))
+    A(P("pb-blocked-in-join", [spawn(2), join(2), ld("x")], [ld("x"), st("x", 1)]))
+    A(P("pb-parked", [spawn(2), ld("x"), unpark(2), join(2)], [L("park"), ld("x")]))
+    A(P("pb-cv-waiter", SJ(2) + JJ(2), CS("m", L("cvwait", "cv", o2="m")), [ld("x")] + CS("m", L("notify1", "cv"))))
+    A(P("pb-arc-in-table", SJ(1) + [ld("x"), D("a1")] + JJ(1), [ld("x"), D("a2")], arcs=a2))
+    A(P("pb-arc-in-frame", SJ(1) + [L("ahold", "a1"), ld("x"), L("adropheld", "a1")] + JJ(1), [L("ahold", "a2"), ld("x"), L("adropheld", "a2")], arcs=a2))
+    A(P("pb-arc-moved-into-unstarted-thread", [I("spawn", "a2", v=2), ld("x"), D("a1"), join(2)], [ld("x"), D("a2")], arcs=a2))
+    A(P("pb-track", [L("tnew", "k"), spawn(2), ld("x"), join(2)], [ld("x"), L("tdrop", "k")]))
+    A(P("pb-track-moved-into-unstarted-thread", [L("tnew", "k"), I("spawn", k="k", v=2), ld("x"), join(2)], [ld("x"), L("tdrop", "k")]))
+    A(P("pb-receiver-moved-into-unstarted-thread", [I("spawn", o2="ch", v=2), ld("x"), L("send", "ch", v=1), join(2)],
+        [L("recv", "ch"), ld("x"), L("droprx", "ch")]))
+    A(P("pb-thread-local", SJ(1) + [I("tlwith", "T0"), ld("x")] + JJ(1), [I("tlwith", "T0"), I("tlwith", "T1"), ld("x")]))
+    A(P("pb-lazy-static", SJ(1) + [I("lzget", "Z0"), ld("x")] + JJ(1), [I("lzget", "Z0"), ld("x")]))
+    A(P("pb-notify", [spawn(2), L("nwait", "nt"), join(2)], [ld("x"), L("notify", "nt")]))
+    A(P("pb-3threads", SJ(3) + JJ(3), [fadd("x", 1, "acqrel")], [fadd("x", 2, "acqrel")], CS("m", ld("x"))))
+    return out
+
+
+def crash_points(tier, seed):
+    """every instruction index of every thread of every base program gets a panic; plus guarded panics"""
+    import copy
+    rng = random.Random(seed * 1009 + 61)
+    progs = []
+    for p in panic_base():
+        pts = [(t, i) for t in range(len(p["threads"])) for i in range(len(p["threads"][t]) + 1)]
+        if tier == "quick":
+            rng.shuffle(pts)
+            pts = pts[:5]
+        for (t, i) in pts:
+            q = copy.deepcopy(p)
+            q["threads"][t].insert(i, I("panic"))
+            q["name"] = p["name"] + f"+panic[{t + 1}:{i}]"
+            progs.append(q)
+        # guarded: panic only if the last value loaded before the point equals v (reachable in some iterations only)
+        for (t, i) in pts[:3]:
+            th = p["threads"][t]
+            nret = sum(1 for ins in th[:i] if ins["op"] in RET_OPS)
+            if nret == 0:
+                continue
+            for v in (0, 1):
+                q = copy.deepcopy(p)
+                q["threads"][t][i:i] = [br(nret, v, 1), I("panic")]
+                q["name"] = p["name"] + f"+panic-if[{t + 1}:{i}:r{nret}=={v}]"
+                progs.append(q)
+        progs.append(copy.deepcopy(p))
+    return [normalize(fix_br_keep(p)) for p in progs]
+
+
+def fix_br_keep(p):
+    return p
+
+
+def iso_base():
+    """programs that touch every kind of per-execution state (C16); the second list are 'disturbers',
+    some of which fail on purpose and leave state behind"""
+    a2 = {"A": {"h0": ["a1", "a2"], "cell": "pc"}}
+    D = lambda h: L("adrop", h)
+    A = [
+        wrap([[st("y", 1), st("x", 1, "rel")], [ld("x", "acq"), ld("y")]], ["x"], name="iso-MP"),
+        wrap([[st("x", 1), fence("sc"), ld("y")], [st("y", 1), fence("sc"), ld("x")]], [], name="iso-SB-scfence"),
+        P("iso-5threads", SJ(4) + JJ(4), [st("x", 1)], [st("y", 1)], [ld("x")], [ld("y")]),
+        P("iso-mutex-cv", SJ(2) + JJ(2), CS("m", wr("c_m"), L("notify1", "cv")), CS("m", rd("c_m"))),
+        P("iso-rw", SJ(2) + JJ(2), [L("read", "l"), rd("c_l"), L("unlockr", "l")], [L("write", "l"), wr("c_l"), L("unlockw", "l")]),
+        P("iso-chan", [spawn(2), spawn(3), L("recv", "ch"), L("recv", "ch"), join(2), join(3), L("droprx", "ch")], [L("send", "ch", v=1)], [L("send", "ch", v=2)]),
+        P("iso-notify-park", [spawn(2), L("nwait", "nt"), unpark(2), join(2)], [L("notify", "nt"), L("park")]),
+        P("iso-arc", SJ(1) + [rd("pc"), D("a1")] + JJ(1), [rd("pc"), D("a2")], arcs=a2),
+        P("iso-track", [L("tnew", "k"), spawn(2), join(2)], [L("tdrop", "k")]),
+        P("iso-statics", SJ(2) + [I("tlwith", "T0")] + JJ(2), [I("tlwith", "T0"), I("lzget", "Z0"), I("tlwith", "T0")], [I("lzget", "Z0"), I("tlwith", "T1")]),
+        P("iso-lazy-racy", SJ(2) + JJ(2), [I("lzget", "Z1", k="yield")], [I("lzget", "Z1", k="yield"), I("lzget", "Z0"), rd("c_Z0")]),
+        P("iso-await", SJ(2) + JJ(2), [st("y", 1), st("x", 1, "rel")], [await_("x", "acq"), ld("y")]),
+    ]
+    B = [
+        P("dis-leak-msg", [spawn(2), join(2)], [L("send", "ch", v=7), L("send", "ch", v=8)]),
+        P("dis-leak-arc", SJ(1) + JJ(1), [ld("x")], arcs={"A": {"h0": ["a1", "a2"], "cell": ""}}),
+        P("dis-deadlock", SJ(2) + JJ(2), CS("m", ld("x"), *CS("n")), CS("n", ld("x"), *CS("m"))),
+        P("dis-race", [spawn(2), wr("c"), join(2)], [rd("c")]),
+        P("dis-panic-in-region", SJ(2) + JJ(2), [I("stopx"), st("x", 1), I("panic")], [ld("x"), I("tlwith", "T0"), I("lzget", "Z0")]),
+        P("dis-statics-5threads", SJ(4) + JJ(4), [I("tlwith", "T0"), I("lzget", "Z0")], [I("tlwith", "T1"), fence("sc")], [I("lzget", "Z1", k="yield")], [st("x", 5, "sc")]),
+        P("dis-ok-big", SJ(3) + JJ(3) + [ld("x"), ld("y")], [st("x", 1), st("y", 1, "rel")], [ld("y", "acq"), fadd("x", 10)], CS("m", ld("x"))),
+    ]
+    return [normalize(p) for p in A], [normalize(p) for p in B]
